@@ -433,6 +433,51 @@ func runC09(p *core.Prog, r *core.Report) {
 		}
 	}
 
+	// ---- R1 (converse): Parse does not report success before the sources were applied — every return that can carry a
+	// nil error lies behind the loop that hands the command-line / environment text to every flag
+	{
+		hdrs := map[*ssa.BasicBlock]bool{}
+		sx.Instrs(c.Parse, func(in ssa.Instruction) {
+			call, ok := in.(ssa.CallInstruction)
+			if !ok || !c.isSet(call) {
+				return
+			}
+			if h := sx.InnermostLoop(c.Parse, in.Block()); h != nil {
+				hdrs[h] = true
+			}
+		})
+		var bad []string
+		n := 0
+		for _, ret := range sx.Returns(c.Parse) {
+			if len(ret.Results) == 0 {
+				continue
+			}
+			for _, rc := range retCases(ret, len(ret.Results)-1) {
+				// a value that is known to be an error here: errors.New / fmt.Errorf, or a call result behind its own != nil edge
+				v := sx.Unspill(rc.Val)
+				if cc, ok := v.(*ssa.Call); ok {
+					if nm := sx.CalleeName(cc); nm == "errors.New" || nm == "fmt.Errorf" {
+						continue
+					}
+				}
+				if _, isMI := v.(*ssa.MakeInterface); isMI {
+					continue
+				}
+				if !sx.IsNilConst(v) {
+					_, nonNil := sx.NilEdges(v)
+					if len(nonNil) > 0 && sx.MustPass(c.Parse, nil, rc.At, sx.Cut{Edges: nonNil}) {
+						continue
+					}
+				}
+				n++
+				if len(hdrs) == 0 || !sx.MustPass(c.Parse, nil, rc.At, sx.Cut{Blocks: hdrs}) {
+					bad = append(bad, "the return at "+p.Pos(ret.Pos())+" can report success (error value "+short(sx.ValPath(v))+") on a path that never entered the loop applying the command-line and environment text")
+				}
+			}
+		}
+		r.Check(len(bad) == 0 && n > 0 && len(hdrs) > 0, "C09-R1", "Parse succeeds only after the sources were applied to every flag", p.FuncPos(c.Parse), fmt.Sprintf("%d possibly-nil return(s), all behind the apply loop", n), strings.Join(uniq(bad), "; ")+": fields keep their defaults although the command line, the environment or the JSON document mention them")
+	}
+
 	// ---- R3
 	{
 		var builder *ssa.Function
@@ -463,6 +508,28 @@ func runC09(p *core.Prog, r *core.Report) {
 					why = "a Value is built from " + keys(org) + " at " + p.Pos(mi.Pos()) + ", not from the field's own address: Set would write a copy"
 				}
 			})
+			// the builder hands the tag default to the new Value on every path that succeeds (an empty default means the zero
+			// value, not "whatever the field held")
+			{
+				cutS := sx.Cut{Instrs: map[ssa.Instruction]bool{}}
+				sx.Instrs(builder, func(in ssa.Instruction) {
+					if call, ok := in.(ssa.CallInstruction); ok && c.isSet(call) {
+						cutS.Instrs[in] = true
+					}
+				})
+				okDef := len(cutS.Instrs) > 0
+				for _, ret := range sx.Returns(builder) {
+					if len(ret.Results) < 2 {
+						continue
+					}
+					for _, rc := range retCases(ret, len(ret.Results)-1) {
+						if sx.IsNilConst(rc.Val) && !sx.MustPass(builder, nil, rc.At, cutS) {
+							okDef = false
+						}
+					}
+				}
+				r.Check(okDef, "C09-R4", "the Value builder applies the tag default on every successful path", p.FuncPos(builder), "every nil-error return is behind value.Set(default)", "the builder can return a Value without calling Set(default) (e.g. when the default is empty): the field keeps whatever the caller's struct held, not the zero value the empty default stands for")
+			}
 			r.Check(okAll && n > 0, "C09-R3", "Values alias the struct fields", p.FuncPos(builder), fmt.Sprintf("%d Value constructions, each a pointer conversion of v.Addr().Interface()", n), why)
 			// R4 (coverage of the type switch): every type implementing Value (pointer receiver) is produced here
 			produced := map[string]bool{}
